@@ -105,26 +105,102 @@ func (o *Oracle) judgeProfileAnswer(e *Exchange) {
 
 func (o *Oracle) judgeGoogleAnswer(e *Exchange, email string, asked, got []string, l3 []*Exchange, during func(*Exchange) bool) {
 	has := map[string]*Exchange{}
-	lists := map[string][]dirSaid{}
+	// every members.list exchange by group, in wire order
+	type listed struct {
+		ex     *Exchange
+		users  map[string]bool
+		nested []string
+	}
+	all := map[string][]listed{}
 	for _, x := range l3 {
 		if g, who, ok := groupOfPath(x.Path, "hasMember"); ok && who == email && during(x) {
 			has[g] = x
 		}
-		if g, _, ok := groupOfPath(x.Path, "members"); ok && definitive(x) && x.At <= e.Done {
-			s := dirSaid{ex: x}
-			if x.Status == 200 {
+		if g, _, ok := groupOfPath(x.Path, "members"); ok && x.At <= e.Done {
+			l := listed{ex: x}
+			if definitive(x) && x.Status == 200 {
 				var body struct {
 					Members []struct{ Email, Type string } `json:"members"`
 				}
 				if json.Unmarshal(x.RespBody, &body) != nil {
 					continue
 				}
-				s.members = map[string]bool{}
+				l.users = map[string]bool{}
 				for _, m := range body.Members {
-					s.members[m.Email] = true
+					if m.Type == "GROUP" {
+						l.nested = append(l.nested, m.Email)
+					} else {
+						l.users[m.Email] = true
+					}
 				}
 			}
-			lists[g] = append(lists[g], s)
+			all[g] = append(all[g], l)
+		}
+	}
+	// what one fetch of g told this process: the listing itself and, for every group that is a member of g, the listing of
+	// that group which follows it. A fetch of which any part failed tells nothing (the previous list stays); where the
+	// wire leaves open which nested listing belonged to the fetch, every reading is kept
+	type fetch struct {
+		said    []dirSaid // readings of a successful fetch
+		mayFail bool      // some reading has it fail
+		done    time.Duration
+	}
+	fetches := map[string][]fetch{}
+	for g, ls := range all {
+		for _, l := range ls {
+			f := fetch{done: l.ex.Done}
+			switch {
+			case !definitive(l.ex):
+				continue
+			case l.ex.Status == 404:
+				f.said = []dirSaid{{ex: l.ex}}
+			case len(l.nested) == 0:
+				f.said = []dirSaid{{ex: l.ex, members: l.users}}
+			default:
+				readings := []dirSaid{{ex: l.ex, members: l.users}}
+				for _, n := range l.nested {
+					var cands []listed
+					for _, c := range all[n] {
+						if c.ex.At >= l.ex.Done && c.ex.At <= l.ex.Done+5*time.Second {
+							cands = append(cands, c)
+						}
+					}
+					if len(cands) == 0 {
+						f.mayFail, readings = true, nil // not listed at all (breaker open, process died): the fetch failed
+						break
+					}
+					var next []dirSaid
+					for _, c := range cands {
+						if c.ex.Done > f.done {
+							f.done = c.ex.Done
+						}
+						switch {
+						case !definitive(c.ex):
+							f.mayFail = true
+						case c.ex.Status == 404:
+							next = append(next, dirSaid{ex: l.ex}) // a missing member group fails the listing as "group not found"
+						default:
+							for _, rd := range readings {
+								if rd.members == nil {
+									next = append(next, rd)
+									continue
+								}
+								m := map[string]bool{}
+								for k := range rd.members {
+									m[k] = true
+								}
+								for k := range c.users {
+									m[k] = true
+								}
+								next = append(next, dirSaid{ex: l.ex, members: m})
+							}
+						}
+					}
+					readings = next
+				}
+				f.said = readings
+			}
+			fetches[g] = append(fetches[g], f)
 		}
 	}
 	for _, g := range asked {
@@ -151,36 +227,48 @@ func (o *Oracle) judgeGoogleAnswer(e *Exchange, email string, asked, got []strin
 			}
 			continue
 		}
-		// answered from the member-list cache: the list in force is the latest definitive fetch that
+		// answered from the member-list cache: the list in force is the one of the latest successful fetch that
 		// finished before the request began; fetches overlapping the request may or may not be in yet
-		var base *dirSaid
-		var alts []dirSaid
-		for i := range lists[g] {
-			s := lists[g][i]
-			if s.ex.Done < e.At {
-				base = &lists[g][i]
+		var bases, alts []dirSaid
+		nestedSeen := false
+		for _, f := range fetches[g] {
+			if f.done < e.At {
+				switch {
+				case len(f.said) > 0 && !f.mayFail:
+					bases = append([]dirSaid{}, f.said...)
+				case len(f.said) > 0:
+					bases = append(bases, f.said...)
+				}
 			} else {
-				alts = append(alts, s)
+				alts = append(alts, f.said...)
 			}
+			nestedSeen = nestedSeen || len(f.said) > 1 || f.mayFail
 		}
 		okBy := func(s dirSaid) bool { return s.members != nil && s.members[email] == claim }
-		okAny := base != nil && okBy(*base)
+		okAny := false
+		for _, s := range bases {
+			okAny = okAny || okBy(s)
+		}
 		for _, s := range alts {
 			okAny = okAny || okBy(s)
 		}
-		o.res.cover(fmt.Sprintf("C17.A2|world|from-list|base=%v|alts=%d", base != nil, min(len(alts), 2)))
+		o.res.cover(fmt.Sprintf("C17.A2|world|from-list|base=%v|alts=%d|nested=%v", len(bases) > 0, min(len(alts), 2), nestedSeen))
 		if okAny {
 			continue
 		}
+		missing := len(bases) > 0
+		for _, s := range bases {
+			missing = missing && s.members == nil
+		}
 		switch {
-		case base == nil && len(alts) == 0:
+		case len(bases) == 0 && len(alts) == 0:
 			o.violate(e, "C17.A4-partial-cache-falls-back", fmt.Sprintf("/profile answered about %s in %s (%v) although this process never fetched that group's member list and did not ask the directory", email, g, claim), "path", "world", "facet", "never-listed")
-		case base != nil && base.members == nil && len(alts) == 0:
-			o.violate(e, "C17.A2-refresh-replaces-keeps-drops", fmt.Sprintf("the directory last reported %s missing [#%d]; /profile still answered about %s from a cached list (%v) instead of asking", g, base.ex.Seq, email, claim), "path", "world", "facet", "missing-not-dropped")
+		case missing && len(alts) == 0:
+			o.violate(e, "C17.A2-refresh-replaces-keeps-drops", fmt.Sprintf("the directory last reported %s missing [#%d]; /profile still answered about %s from a cached list (%v) instead of asking", g, bases[0].ex.Seq, email, claim), "path", "world", "facet", "missing-not-dropped")
 		default:
 			n := -1
-			if base != nil {
-				n = base.ex.Seq
+			if len(bases) > 0 {
+				n = bases[len(bases)-1].ex.Seq
 			}
 			o.violate(e, "C17.A2-refresh-replaces-keeps-drops", fmt.Sprintf("/profile says %s in %s: %v, which is not what the latest member list fetched by this process says [#%d]", email, g, claim, n), "path", "world", "facet", "stale-after-refresh")
 		}
